@@ -1,13 +1,32 @@
 (* C03, the other inclusion: the generated visit_dependencies() hands the visitor nothing the generated text does not
    mention — every exportable type among the dependencies of a definition is named in its declaration — for every
    environment in which no type parameter has a default (a defaulted parameter is visited whether or not the argument
-   replaces it: the known class of C03), every definition, all type arguments, every fuel.  With Proofs/Gen_refs_proofs.v
-   the two sets are equal there.  (Before the fix that stops a zero-length array from visiting its element type,
-   `[Foo; 0]` was a counterexample: the text `[]` mentions nothing.) *)
+   replaces it: the known class of C03) and no zero-length array occurs (`[Foo; 0]` is declared `[]` and visits Foo all the
+   same — which C12 demands of every library type: a known class of C03 found by this proof), every definition, all type
+   arguments, every fuel.  With Proofs/Gen_refs_proofs.v the two sets are equal there. *)
 From TsRs Require Import Base.Str Base.Outcome Gen.Tables Model.Case Model.TsAst Model.Rust Model.Docs Model.Gen
   Spec.TsFree Spec.RtyInd Proofs.Gen_base_proofs Proofs.Gen_refs_proofs.
 From Coq Require Import List Lia Bool.
 Import ListNotations.
+
+(* no zero-length array anywhere in a type *)
+Fixpoint nz (t : rty) : bool :=
+  match t with
+  | RLeaf _ | RParam _ | RDummy _ => true
+  | RArray n u => negb (Nat.eqb n 0) && nz u
+  | ROption u | RVec u | RWrap u | RRange u => nz u
+  | RTuple ts => forallb nz ts
+  | RMap k v | RResult k v => nz k && nz v
+  | RNamed _ args => forallb nz args
+  end.
+Definition nz_field (f : field) : bool := nz (f_ty f).
+Definition nz_shape (s : shape) : bool := match s with SUnit => true | STuple fs | SNamed fs => forallb nz_field fs end.
+Definition nz_def (d : typedef) : bool :=
+  match c_as (attrs_of d) with Some u => nz u | None => true end &&
+  match d with
+  | DStruct _ s => nz_shape s
+  | DEnum _ _ _ vs => forallb (fun v => nz_shape (v_shape v) && match v_as v with Some u => nz u | None => true end) vs
+  end.
 
 Definition no_defaults (d : typedef) : bool :=
   forallb (fun p : str * option rty => match snd p with None => true | Some _ => false end) (c_params (attrs_of d)).
@@ -19,7 +38,7 @@ Definition variant_exact (v : variant) : bool :=
   | None => true
   end.
 Definition def_exact (d : typedef) : bool :=
-  no_defaults d && match d with DEnum _ _ _ vs => forallb variant_exact vs | _ => true end.
+  no_defaults d && nz_def d && match d with DEnum _ _ _ vs => forallb variant_exact vs | _ => true end.
 Definition no_defaults_env (R : env) : bool := forallb (fun p => def_exact (snd p)) R.
 
 Section Rev.
@@ -45,9 +64,42 @@ Qed.
 Lemma default_deps_nil id d args : lookup R id = Some d -> default_deps (attrs_of d) args = [].
 Proof.
   intros Hl. unfold no_defaults_env in Hnd. rewrite forallb_forall in Hnd. specialize (Hnd _ (lookup_in' id d R Hl)). cbn [snd] in Hnd.
-  unfold def_exact in Hnd. apply andb_true_iff in Hnd as [Hnd _]. unfold no_defaults in Hnd. unfold default_deps. induction (c_params (attrs_of d)) as [|p ps IH]; [reflexivity|].
+  unfold def_exact in Hnd. apply andb_true_iff in Hnd as [Hnd _]. apply andb_true_iff in Hnd as [Hnd _]. unfold no_defaults in Hnd. unfold default_deps. induction (c_params (attrs_of d)) as [|p ps IH]; [reflexivity|].
   cbn [forallb flat_map] in *. apply andb_true_iff in Hnd as [H1 H2]. destruct (snd p); [discriminate|]. exact (IH H2).
 Qed.
+
+Lemma env_nz id d : lookup R id = Some d -> nz_def d = true.
+Proof.
+  intros Hl. unfold no_defaults_env in Hnd. rewrite forallb_forall in Hnd. specialize (Hnd _ (lookup_in' id d R Hl)). cbn [snd] in Hnd.
+  unfold def_exact in Hnd. apply andb_true_iff in Hnd as [Hnd _]. apply andb_true_iff in Hnd as [_ Hnd]. exact Hnd.
+Qed.
+
+Lemma nth_nz args i d0 : forallb nz args = true -> nz d0 = true -> nz (nth i args d0) = true.
+Proof.
+  revert i. induction args as [|x l IH]; intros [|i] Ha Hd; cbn [nth]; try exact Hd; cbn [forallb] in Ha; apply andb_true_iff in Ha as [H1 H2];
+    [exact H1 | apply IH; assumption].
+Qed.
+Lemma map_nz (f : rty -> rty) ts : Forall (fun t => nz t = true -> nz (f t) = true) ts -> forallb nz ts = true -> forallb nz (map f ts) = true.
+Proof.
+  induction 1 as [|x l Hx _ IH]; cbn [map forallb]; intros H; [reflexivity|]. apply andb_true_iff in H as [H1 H2]. rewrite (Hx H1), (IH H2). reflexivity.
+Qed.
+Lemma nz_rsubst args : forallb nz args = true -> forall t, nz t = true -> nz (rsubst args t) = true.
+Proof.
+  intros Ha. induction t as [l|t IH|t IH|n t IH|ts IH|k v IHk IHv|t IH|t e IHt IHe|t IH|id targs IH|i|n] using rty_ind';
+    cbn [nz rsubst]; intros Hc; auto.
+  - apply andb_true_iff in Hc as [H1 H2]. rewrite H1, (IH H2). reflexivity.
+  - apply map_nz; assumption.
+  - apply andb_true_iff in Hc as [H1 H2]. rewrite (IHk H1), (IHv H2). reflexivity.
+  - apply andb_true_iff in Hc as [H1 H2]. rewrite (IHt H1), (IHe H2). reflexivity.
+  - apply map_nz; assumption.
+  - apply nth_nz; [exact Ha | reflexivity].
+Qed.
+Lemma nz_option_inner t : nz t = true -> nz (option_inner t) = true.
+Proof. destruct t; cbn [option_inner nz]; auto. Qed.
+Lemma nz_field_ty args opt fl : forallb nz args = true -> nz (f_ty fl) = true -> nz (field_ty args opt fl) = true.
+Proof. intros Ha H. unfold field_ty. destruct (snd _); [|apply nz_option_inner]; apply nz_rsubst; assumption. Qed.
+Lemma nz_dummies a : forallb nz (dummies a) = true.
+Proof. unfold dummies. induction (c_params a) as [|p l IH]; [reflexivity|]. cbn [map forallb nz]. exact IH. Qed.
 
 Lemma eid_leafish u : match u with RNamed _ _ => False | _ => True end -> eid u = [].
 Proof. destruct u; intros H; try reflexivity. contradiction. Qed.
@@ -55,12 +107,13 @@ Proof. destruct u; intros H; try reflexivity. contradiction. Qed.
 (* ---- name(): the exportable pushed types are all named ---- *)
 Lemma args_push_rev ts l :
   Forall2 (fun x y => name_of x = Ok y) ts l ->
-  Forall (fun t => forall a, name_of t = Ok a -> incl (eids (t :: visit_generics t)) (refs a)) ts ->
+  Forall (fun t => nz t = true -> forall a, name_of t = Ok a -> incl (eids (t :: visit_generics t)) (refs a)) ts ->
+  forallb nz ts = true ->
   incl (eids (flat_map (fun u => u :: visit_generics u) ts)) (flat_map refs l).
 Proof.
-  induction 1 as [|x y ts l Hxy _ IHl]; intros IH; [apply incl_nil_l|].
-  inversion IH as [|? ? H1 H2]; subst. cbn [flat_map]. rewrite eids_app.
-  apply incl_app; [apply incl_appl; apply H1; exact Hxy | apply incl_appr; apply IHl; exact H2].
+  induction 1 as [|x y ts l Hxy _ IHl]; intros IH Hz; [apply incl_nil_l|].
+  inversion IH as [|? ? H1 H2]; subst. cbn [forallb] in Hz. apply andb_true_iff in Hz as [Hz1 Hz2]. cbn [flat_map]. rewrite eids_app.
+  apply incl_app; [apply incl_appl; apply H1; [exact Hz1 | exact Hxy] | apply incl_appr; apply IHl; [exact H2 | exact Hz2]].
 Qed.
 
 Lemma unary_push u : incl (eids (visit_generics u ++ [u])) (eids (u :: visit_generics u)).
@@ -72,30 +125,30 @@ Qed.
 Lemma eids_binary A k B v : eids (A ++ k :: B ++ [v]) = eids (A ++ [k]) ++ eids (B ++ [v]).
 Proof. unfold Gen_refs_proofs.eids. rewrite !flat_map_app. cbn [flat_map]. rewrite !flat_map_app. cbn [flat_map]. rewrite ?app_nil_r, <- ?app_assoc. reflexivity. Qed.
 
-Lemma name_refs_rev : forall t a, name_of t = Ok a -> incl (eids (push t)) (refs a).
+Lemma name_refs_rev : forall t, nz t = true -> forall a, name_of t = Ok a -> incl (eids (push t)) (refs a).
 Proof.
   unfold push.
   induction t as [l|t IH|t IH|n t IH|ts IH|k v IHk IHv|t IH|t e IHt IHe|t IH|id args IH|i|n] using rty_ind';
-    cbn [Gen.name_of visit_generics]; intros a H; rewrite eids_cons.
+    cbn [Gen.name_of visit_generics nz]; intros Hz a H; rewrite eids_cons.
   - cbn. apply incl_nil_l.
   - apply bind_ok in H as (x & Hx & H). inversion H. cbn [Gen_refs_proofs.eid out_path app refs flat_map]. rewrite !app_nil_r.
-    eapply incl_tran; [apply unary_push | apply IH; exact Hx].
+    eapply incl_tran; [apply unary_push | apply IH; [exact Hz | exact Hx]].
   - apply bind_ok in H as (x & Hx & H). inversion H. cbn [Gen_refs_proofs.eid out_path app refs].
-    eapply incl_tran; [apply unary_push | apply IH; exact Hx].
-  - destruct n as [|n']; [cbn; apply incl_nil_l|].
+    eapply incl_tran; [apply unary_push | apply IH; [exact Hz | exact Hx]].
+  - apply andb_true_iff in Hz as [Hn Hz]. destruct n as [|n']; [discriminate Hn|].
     apply bind_ok in H as (x & Hx & H). inversion H. cbn [Gen_refs_proofs.eid out_path app].
-    eapply incl_tran; [apply unary_push|]. eapply incl_tran; [apply IH; exact Hx | apply refs_array_rev; lia].
+    eapply incl_tran; [apply unary_push|]. eapply incl_tran; [apply IH; [exact Hz | exact Hx] | apply refs_array_rev; lia].
   - apply bind_ok in H as (l & Hl & H). inversion H. cbn [refs Gen_refs_proofs.eid out_path app].
     apply omap_list_ok in Hl. apply args_push_rev; assumption.
-  - apply bind_ok in H as (x & Hx & H). apply bind_ok in H as (y & Hy & H). inversion H. cbn [refs Gen_refs_proofs.eid out_path app].
+  - apply andb_true_iff in Hz as [Hz1 Hz2]. apply bind_ok in H as (x & Hx & H). apply bind_ok in H as (y & Hy & H). inversion H. cbn [refs Gen_refs_proofs.eid out_path app].
     rewrite eids_binary.
     apply incl_app; [apply incl_appl | apply incl_appr]; (eapply incl_tran; [apply unary_push|]); [apply IHk | apply IHv]; assumption.
-  - cbn [Gen_refs_proofs.eid out_path app]. eapply incl_tran; [apply unary_push | apply IH; exact H].
-  - apply bind_ok in H as (x & Hx & H). apply bind_ok in H as (y & Hy & H). inversion H. cbn [refs Gen_refs_proofs.eid out_path app].
+  - cbn [Gen_refs_proofs.eid out_path app]. eapply incl_tran; [apply unary_push | apply IH; [exact Hz | exact H]].
+  - apply andb_true_iff in Hz as [Hz1 Hz2]. apply bind_ok in H as (x & Hx & H). apply bind_ok in H as (y & Hy & H). inversion H. cbn [refs Gen_refs_proofs.eid out_path app].
     rewrite eids_binary.
     apply incl_app; [apply incl_appl | apply incl_appr]; (eapply incl_tran; [apply unary_push|]); [apply IHt | apply IHe]; assumption.
   - apply bind_ok in H as (x & Hx & H). inversion H. cbn [refs flat_map snd Gen_refs_proofs.eid out_path app]. rewrite app_nil_r.
-    apply incl_appl. eapply incl_tran; [apply unary_push | apply IH; exact Hx].
+    apply incl_appl. eapply incl_tran; [apply unary_push | apply IH; [exact Hz | exact Hx]].
   - destruct (lookup R id) as [d|] eqn:Hlk; [|discriminate].
     apply bind_ok in H as (l & Hl & H). inversion H. cbn [refs]. unfold Gen_refs_proofs.eid at 1. cbn [out_path ident_of]. rewrite Hlk. cbn [app].
     apply incl_cons; [left; reflexivity|]. apply incl_tl.
@@ -106,40 +159,40 @@ Qed.
 
 (* what a derived type visits, against what it answers *)
 Definition g_rev (g : dgen) (gd : ddeps) : Prop :=
-  forall id d args r l, lookup R id = Some d -> g d args = Ok r -> gd d args = Ok l ->
+  forall id d args r l, lookup R id = Some d -> forallb nz args = true -> g d args = Ok r -> gd d args = Ok l ->
     incl (eids l) (refs (fst r)) /\ forall x, snd r = Some x -> incl (eids l) (refs x).
 
 Lemma lib_inline_rev g gd : g_rev g gd ->
-  forall t a l, lib_inline g t = Ok a -> lib_vdeps gd t = Ok l -> incl (eids l) (refs a).
+  forall t, nz t = true -> forall a l, lib_inline g t = Ok a -> lib_vdeps gd t = Ok l -> incl (eids l) (refs a).
 Proof.
   intros Hg.
   induction t as [lf|t IH|t IH|n t IH|ts IH|k v IHk IHv|t IH|t e IHt IHe|t IH|id args IH|i|n] using rty_ind';
-    cbn [Gen.lib_inline Gen.lib_vdeps]; intros a l H Hd; try discriminate.
+    cbn [Gen.lib_inline Gen.lib_vdeps nz]; intros Hz a l H Hd; try discriminate.
   - inversion Hd. apply incl_nil_l.
   - apply bind_ok in H as (x & Hx & H). inversion H. cbn [refs flat_map]. rewrite !app_nil_r. eauto.
   - apply bind_ok in H as (x & Hx & H). inversion H. cbn [refs]. eauto.
-  - destruct n as [|n']; [inversion Hd; apply incl_nil_l|].
+  - apply andb_true_iff in Hz as [Hn Hz]. destruct n as [|n']; [discriminate Hn|].
     apply bind_ok in H as (x & Hx & H). inversion H. eapply incl_tran; [eapply IH; eassumption | apply refs_array_rev; lia].
-  - apply bind_ok in H as (x & Hx & H). apply bind_ok in H as (y & Hy & H). inversion H.
+  - apply andb_true_iff in Hz as [Hz1 Hz2]. apply bind_ok in H as (x & Hx & H). apply bind_ok in H as (y & Hy & H). inversion H.
     apply bind_ok in Hd as (la & Hla & Hd). apply bind_ok in Hd as (lb & Hlb & Hd). inversion Hd.
     cbn [refs]. rewrite eids_app. apply incl_app; [apply incl_appl | apply incl_appr]; eauto.
   - eauto.
-  - apply bind_ok in H as (x & Hx & H). apply bind_ok in H as (y & Hy & H). inversion H.
+  - apply andb_true_iff in Hz as [Hz1 Hz2]. apply bind_ok in H as (x & Hx & H). apply bind_ok in H as (y & Hy & H). inversion H.
     apply bind_ok in Hd as (la & Hla & Hd). apply bind_ok in Hd as (lb & Hlb & Hd). inversion Hd.
     cbn [refs]. rewrite eids_app. apply incl_app; [apply incl_appl | apply incl_appr]; eauto.
   - destruct (lookup R id) as [d|] eqn:Hlk; [|discriminate].
-    apply omap_ok in H as (r & Hr & ->). destruct (Hg _ _ _ _ _ Hlk Hr Hd) as [H1 _]. exact H1.
+    apply omap_ok in H as (r & Hr & ->). destruct (Hg _ _ _ _ _ Hlk Hz Hr Hd) as [H1 _]. exact H1.
 Qed.
 
 Lemma lib_flat_rev g gd : g_rev g gd ->
-  forall t a l, lib_flat g t = Ok a -> lib_vdeps gd t = Ok l -> incl (eids l) (refs a).
+  forall t, nz t = true -> forall a l, lib_flat g t = Ok a -> lib_vdeps gd t = Ok l -> incl (eids l) (refs a).
 Proof.
   intros Hg.
   induction t as [lf|t IH|t IH|n t IH|ts IH|k v IHk IHv|t IH|t e IHt IHe|t IH|id args IH|i|n] using rty_ind';
-    cbn [Gen.lib_flat Gen.lib_vdeps]; intros a l H Hd; try discriminate.
+    cbn [Gen.lib_flat Gen.lib_vdeps nz]; intros Hz a l H Hd; try discriminate.
   - eauto.
   - destruct (lookup R id) as [d|] eqn:Hlk; [|discriminate].
-    apply bind_ok in H as (r & Hr & H). destruct (Hg _ _ _ _ _ Hlk Hr Hd) as [_ H2].
+    apply bind_ok in H as (r & Hr & H). destruct (Hg _ _ _ _ _ Hlk Hz Hr Hd) as [_ H2].
     destruct (snd r) as [x|]; [|discriminate]. inversion H; subst. apply H2. reflexivity.
   - inversion Hd. apply incl_nil_l.
 Qed.
@@ -148,31 +201,34 @@ Qed.
 Section Def.
 Variable inl flt : rty -> outcome tsty.
 Variable vdp : rty -> outcome (list rty).
-Hypothesis Hinl : forall t a l, inl t = Ok a -> vdp t = Ok l -> incl (eids l) (refs a).
-Hypothesis Hflt : forall t a l, flt t = Ok a -> vdp t = Ok l -> incl (eids l) (refs a).
+Hypothesis Hinl : forall t, nz t = true -> forall a l, inl t = Ok a -> vdp t = Ok l -> incl (eids l) (refs a).
+Hypothesis Hflt : forall t, nz t = true -> forall a l, flt t = Ok a -> vdp t = Ok l -> incl (eids l) (refs a).
 Variable args : list rty.
+Hypothesis Hargs : forallb nz args = true.
 
-Lemma value_rev fl a l : value_ty R inl args fl = Ok a -> value_deps vdp args fl = Ok l -> incl (eids l) (refs a).
+Lemma value_rev fl a l : nz_field fl = true -> value_ty R inl args fl = Ok a -> value_deps vdp args fl = Ok l -> incl (eids l) (refs a).
 Proof.
-  unfold value_ty, value_deps. destruct (f_type fl).
+  unfold value_ty, value_deps, nz_field. intros Hz. pose proof (nz_rsubst args Hargs _ Hz) as Hz'. destruct (f_type fl).
   - intros _ H; inversion H. apply incl_nil_l.
   - destruct (f_inline fl); intros H Hd; [eapply Hinl; eassumption|].
-    inversion Hd. eapply name_refs_rev. exact H.
+    inversion Hd. eapply name_refs_rev; [exact Hz' | exact H].
 Qed.
 
-Lemma prop_rev ra opt fl p l : is_flat fl = false ->
+Lemma prop_rev ra opt fl p l : nz_field fl = true -> is_flat fl = false ->
   prop_of is_alnum is_numeric R inl args ra opt fl = Ok p -> prop_deps vdp args opt fl = Ok l -> incl (eids l) (refs (snd p)).
 Proof.
+  unfold nz_field. intros Hz. pose proof (nz_field_ty args opt fl Hargs Hz) as Hz'.
   unfold prop_of, prop_deps, is_flat. destruct (f_type fl) as [txt|].
   - intros _ _ H; inversion H. apply incl_nil_l.
   - rewrite andb_true_r. intros Hnf H Hd. rewrite Hnf in Hd. cbn [orb] in Hd.
     apply bind_ok in H as (x & Hx & H). inversion H; subst. cbn [snd].
-    destruct (f_inline fl); [eapply Hinl; eassumption|]. inversion Hd. eapply name_refs_rev. exact Hx.
+    destruct (f_inline fl); [eapply Hinl; eassumption|]. inversion Hd. eapply name_refs_rev; [exact Hz' | exact Hx].
 Qed.
 
-Lemma flat_rev opt fl a l : is_flat fl = true ->
+Lemma flat_rev opt fl a l : nz_field fl = true -> is_flat fl = true ->
   flt (field_ty args opt fl) = Ok a -> prop_deps vdp args opt fl = Ok l -> incl (eids l) (refs a).
 Proof.
+  unfold nz_field. intros Hz. pose proof (nz_field_ty args opt fl Hargs Hz) as Hz'.
   unfold prop_deps, is_flat. destruct (f_type fl) as [txt|]; [rewrite andb_false_r; discriminate|].
   rewrite andb_true_r. intros Hf H Hd. rewrite Hf in Hd. cbn [orb] in Hd. eapply Hflt; eassumption.
 Qed.
@@ -194,20 +250,24 @@ Proof. split; [apply incl_nil_l | intros; apply incl_nil_l]. Qed.
 Lemma r_rev_none a l : incl (eids l) (refs a) -> r_rev (a, None) l.
 Proof. intros H; split; [exact H | discriminate]. Qed.
 
-Lemma shape_rev ra opt tag s r l :
+Lemma shape_rev ra opt tag s r l : nz_shape s = true ->
   shape_gen is_alnum is_numeric R inl flt args ra opt tag s = Ok r -> shape_deps vdp args opt s = Ok l -> r_rev r l.
 Proof.
-  unfold shape_gen, shape_deps. destruct s as [|fs|fs].
+  intros Hzs. assert (Hzf : forall fs x, (s = STuple fs \/ s = SNamed fs) -> In x (live fs) -> nz_field x = true).
+  { intros fs x Hs Hx. unfold live in Hx. apply filter_In in Hx as [Hx _]. destruct Hs as [-> | ->]; cbn [nz_shape] in Hzs; rewrite forallb_forall in Hzs; exact (Hzs x Hx). }
+  revert Hzf. clear Hzs.
+  unfold shape_gen, shape_deps. destruct s as [|fs|fs]; intros Hzf.
   - intros _ H; inversion H. apply r_rev_nil.
   - destruct fs as [|fl [|fl2 fs]].
     + intros _ H; inversion H. apply r_rev_nil.
-    + destruct (f_skip fl).
+    + destruct (f_skip fl) eqn:Es.
       * intros _ H; inversion H. apply r_rev_nil.
-      * intros H Hd. apply bind_ok in H as (x & Hx & H). inversion H. apply r_rev_none. eapply value_rev; eassumption.
+      * intros H Hd. apply bind_ok in H as (x & Hx & H). inversion H. apply r_rev_none. eapply value_rev; [|eassumption|eassumption].
+        apply (Hzf [fl] fl (or_introl eq_refl)). unfold live. cbn [filter]. rewrite Es. left; reflexivity.
     + intros H Hd. apply bind_ok in H as (xs & Hxs & H). inversion H. apply r_rev_none. cbn [refs].
       apply oconcat_ok in Hd as (ll & Hll & ->). apply omap_list_ok in Hxs. apply omap_list_ok in Hll.
       apply (concat_rev _ _ _ _ Hll). intros x dl Hx Hdl. destruct (Forall2_in_l _ _ _ x Hxs Hx) as (a & Ha & Hxa).
-      eapply incl_tran; [eapply value_rev; eassumption | apply in_flat_map_incl; exact Ha].
+      eapply incl_tran; [eapply value_rev; [exact (Hzf _ x (or_introl eq_refl) Hx) | eassumption | eassumption] | apply in_flat_map_incl; exact Ha].
   - intros H Hd. apply oconcat_ok in Hd as (ll & Hll & ->). apply omap_list_ok in Hll.
     assert (Hmain : forall r,
       bind (omap_list (prop_of is_alnum is_numeric R inl args ra opt) (filter (fun fl => negb (is_flat fl)) (live fs))) (fun props =>
@@ -226,10 +286,10 @@ Proof.
       { apply (concat_rev _ _ _ _ Hll). intros x dl Hx Hdl. destruct (is_flat x) eqn:Efl.
         - assert (Hin : In x (filter is_flat (live fs))) by (apply filter_In; split; assumption).
           destruct (Forall2_in_l _ _ _ x Hf Hin) as (a & Ha & Hxa). apply incl_appr.
-          eapply incl_tran; [eapply flat_rev; eassumption | apply in_flat_map_incl; exact Ha].
+          eapply incl_tran; [eapply flat_rev; [exact (Hzf _ x (or_intror eq_refl) Hx) | eassumption | eassumption | eassumption] | apply in_flat_map_incl; exact Ha].
         - assert (Hin : In x (filter (fun fl => negb (is_flat fl)) (live fs))) by (apply filter_In; split; [assumption | rewrite Efl; reflexivity]).
           destruct (Forall2_in_l _ _ _ x Hp Hin) as (a & Ha & Hxa). apply incl_appl.
-          eapply incl_tran; [eapply prop_rev; eassumption | exact (in_flat_map_incl (fun p => refs (snd p)) a props Ha)]. }
+          eapply incl_tran; [eapply prop_rev; [exact (Hzf _ x (or_intror eq_refl) Hx) | eassumption | eassumption | eassumption] | exact (in_flat_map_incl (fun p => refs (snd p)) a props Ha)]. }
       set (props' := match tag with Some (t, n0) => (quoted_head t, TLit n0) :: props | None => props end) in *.
       assert (Hall' : incl (eids (concat ll)) (flat_map (fun p => refs (snd p)) props' ++ flat_map refs flats)).
       { subst props'. destruct tag as [[t n0]|]; cbn [flat_map snd refs app]; exact Hall. }
@@ -242,17 +302,18 @@ Proof.
 Qed.
 
 Lemma variant_rev a tg raf v x l : variant_exact v = true ->
+  nz_shape (v_shape v) && match v_as v with Some u => nz u | None => true end = true ->
   variant_gen is_upper is_alnum is_numeric R inl flt args a tg raf v = Ok x -> variant_deps vdp args v = Ok l ->
   incl (eids l) (refs x).
 Proof.
   unfold variant_gen, variant_deps.
-  intros Hex H Hd. apply bind_ok in H as (vt & Hvt & H). apply bind_ok in H as (parsed & Hparsed & H).
+  intros Hex Hzv H Hd. apply andb_true_iff in Hzv as [Hzs Hza]. apply bind_ok in H as (vt & Hvt & H). apply bind_ok in H as (parsed & Hparsed & H).
   assert (Hp : incl (eids l) (refs parsed)).
   { destruct (v_as v) as [u|].
-    - inversion Hd. eapply name_refs_rev. exact Hparsed.
+    - inversion Hd. eapply name_refs_rev; [exact (nz_rsubst args Hargs _ Hza) | exact Hparsed].
     - destruct (v_type v).
       + inversion Hd. apply incl_nil_l.
-      + inversion Hparsed; subst. cbn match in Hvt. destruct (shape_rev _ _ _ _ _ _ Hvt Hd) as [Hv1 _]. exact Hv1. }
+      + inversion Hparsed; subst. cbn match in Hvt. destruct (shape_rev _ _ _ _ _ _ Hzs Hvt Hd) as [Hv1 _]. exact Hv1. }
   (* printed as the name alone: nothing was visited *)
   assert (Hnil : is_unit (v_shape v) = true \/ (exists fl, lone_field (v_shape v) = Some fl /\ f_skip fl = true) -> l = []).
   { intros Hcase. unfold variant_exact in Hex. destruct (v_as v) as [u|].
@@ -293,10 +354,11 @@ Proof.
   assert (Hvs : match d with DEnum _ _ _ vs => forallb variant_exact vs = true | _ => True end).
   { unfold no_defaults_env in Hnd. rewrite forallb_forall in Hnd. specialize (Hnd _ (lookup_in' id d R Hlk)). cbn [snd] in Hnd.
     unfold def_exact in Hnd. apply andb_true_iff in Hnd as [_ Hnd]. destruct d; [exact I | exact Hnd]. }
+  pose proof (env_nz id d Hlk) as Hz. unfold nz_def in Hz. apply andb_true_iff in Hz as [Hza Hzd].
   destruct (c_type (attrs_of d)).
   - inversion Hl0. apply r_rev_nil.
   - destruct (c_as (attrs_of d)) as [u|].
-    + apply bind_ok in H as (x & Hx & H). inversion H. apply r_rev_none. eapply Hinl; eassumption.
+    + apply bind_ok in H as (x & Hx & H). inversion H. apply r_rev_none. eapply Hinl; [exact (nz_rsubst args Hargs _ Hza) | eassumption | eassumption].
     + destruct d as [a s|a tg raf vs].
       * eapply shape_rev; eassumption.
       * destruct vs as [|v vs]; [inversion Hl0; apply r_rev_nil|]. remember (live_variants (v :: vs)) as lv eqn:Elv.
@@ -306,6 +368,8 @@ Proof.
         { apply (concat_rev _ _ _ _ Hll). intros y dl Hy Hdl. destruct (Forall2_in_l _ _ _ y Hxs Hy) as (b & Hb & Hyb).
           assert (Hye : variant_exact y = true).
           { rewrite forallb_forall in Hvs. apply Hvs. rewrite Elv in Hy. unfold live_variants in Hy. apply filter_In in Hy as [Hy _]. exact Hy. }
+          assert (Hyz : nz_shape (v_shape y) && match v_as y with Some u => nz u | None => true end = true).
+          { rewrite forallb_forall in Hzd. apply (Hzd y). rewrite Elv in Hy. unfold live_variants in Hy. apply filter_In in Hy as [Hy _]. exact Hy. }
           eapply incl_tran; [eapply variant_rev; eassumption | apply in_flat_map_incl; exact Hb]. }
         clear Elv. destruct xs as [|x0 xs0]; inversion H; subst.
         -- destruct lv; [|inversion Hxs]. inversion Hll. apply r_rev_nil.
@@ -316,9 +380,9 @@ End Def.
 (* ---- the knot ---- *)
 Theorem gen_rev : forall fuel, g_rev (gen fuel) (deps fuel).
 Proof.
-  induction fuel as [|f IH]; intros id d args r l Hlk H Hd; [discriminate|].
+  induction fuel as [|f IH]; intros id d args r l Hlk Ha H Hd; [discriminate|].
   cbn [Gen.gen Gen.deps] in H, Hd. cbv zeta in H, Hd.
-  eapply def_rev; [| |exact Hlk|exact H|exact Hd].
+  eapply def_rev; [| |exact Ha|exact Hlk|exact H|exact Hd].
   - apply lib_inline_rev. exact IH.
   - apply lib_flat_rev. exact IH.
 Qed.
@@ -332,6 +396,6 @@ Theorem decl_deps_are_refs : forall fuel id d dc l,
 Proof.
   intros fuel id d dc l Hlk H Hd. unfold decl_of in H.
   apply bind_ok in H as (r & Hr & H). apply bind_ok in H as (ps & Hps & H). inversion H; subst; clear H. cbn [d_body].
-  destruct (gen_rev fuel id d _ r l Hlk Hr Hd) as [H1 _]. exact H1.
+  destruct (gen_rev fuel id d _ r l Hlk (nz_dummies _) Hr Hd) as [H1 _]. exact H1.
 Qed.
 End Rev.
